@@ -662,6 +662,27 @@ impl<S: BitmapSlice + Send + Sync> PassthroughFs<S> {
         }
     }
 
+    /// Verification hook: (live inode objects, open handles, directory-position records).
+    #[cfg(fuse_backend_rs_verif)]
+    pub fn verif_stats(&self) -> (usize, usize, usize) {
+        (
+            self.inode_map.inodes.read().unwrap().verif_len(),
+            self.handle_map.handles.read().unwrap().len(),
+            self.handle_map.cookies.lock().unwrap().len(),
+        )
+    }
+
+    /// Verification hook: the lookup reference count of `inode`, if it is valid.
+    #[cfg(fuse_backend_rs_verif)]
+    pub fn verif_refcount(&self, inode: Inode) -> Option<u64> {
+        self.inode_map
+            .inodes
+            .read()
+            .unwrap()
+            .get(&inode)
+            .map(|d| d.refcount.load(Ordering::Acquire))
+    }
+
     fn do_lookup(&self, parent: Inode, name: &CStr) -> io::Result<Entry> {
         let name =
             if parent == fuse::ROOT_ID && name.to_bytes_with_nul().starts_with(PARENT_DIR_CSTR) {
@@ -678,10 +699,14 @@ impl<S: BitmapSlice + Send + Sync> PassthroughFs<S> {
 
         let mut found = None;
         'search: loop {
+            #[cfg(fuse_backend_rs_verif)]
+            crate::verif::yield_point(1);
             match self.inode_map.get_alt(&id, handle_opt.as_ref()) {
                 // No existing entry found
                 None => break 'search,
                 Some(data) => {
+                    #[cfg(fuse_backend_rs_verif)]
+                    crate::verif::yield_point(2);
                     let curr = data.refcount.load(Ordering::Acquire);
                     // forgot_one() has just destroyed the entry, retry...
                     if curr == 0 {
@@ -691,6 +716,8 @@ impl<S: BitmapSlice + Send + Sync> PassthroughFs<S> {
                     // Saturating add to avoid integer overflow, it's not realistic to saturate u64.
                     let new = curr.saturating_add(1);
 
+                    #[cfg(fuse_backend_rs_verif)]
+                    crate::verif::yield_point(3);
                     // Synchronizes with the forgot_one()
                     if data
                         .refcount
@@ -714,6 +741,8 @@ impl<S: BitmapSlice + Send + Sync> PassthroughFs<S> {
             };
 
             // Write guard get_alt_locked() and insert_lock() to avoid race conditions.
+            #[cfg(fuse_backend_rs_verif)]
+            crate::verif::yield_point(4);
             let mut inodes = self.inode_map.get_map_mut();
 
             // Lookup inode_map again after acquiring the inode_map lock, as there might be another
